@@ -152,6 +152,7 @@ pub struct Monitors {
     canceled_tasks: BTreeSet<TaskId>,
     forgotten: BTreeSet<JobId>,
     pub micro: u32,
+    env_idx: usize,
     /// tasks that a worker started by itself from its prefilled backlog
     prefill_started: BTreeSet<TaskId>,
     /// workers on which such a start exceeded the server's reservation (see check_c05)
@@ -890,6 +891,7 @@ impl Monitors {
         self.check_c14_c03(world, step, &views_before, &views, &delta, obs);
         self.check_time_limits(world, step, obs);
         self.check_snapshot_consistency(step, &snap, obs);
+        self.check_c04(world, step, &snap, obs);
 
         // classes
         if !snap.redirects.is_empty() {
@@ -1926,6 +1928,106 @@ impl Monitors {
         for (_s, _ms, ev) in l.log.iter() {
             if let LEvent::Stop { cancel: false, .. } = ev {
                 obs.class("time-limit-expired");
+            }
+        }
+    }
+
+    /// C04 on the real worker: the allocations of the executions that are live at the same time
+    /// on one worker are pairwise compatible, each is exactly what was requested, and the
+    /// environment variables describe it.
+    fn check_c04(&mut self, world: &World, step: u32, snap: &CoreSnapshot, obs: &mut Obs) {
+        let l = world.launch.borrow();
+        while self.env_idx < l.env_problems.len() {
+            let (t, w, p) = &l.env_problems[self.env_idx];
+            self.env_idx += 1;
+            obs.alarm(
+                "C04",
+                step,
+                "resource values told to the task are not the ones it holds",
+                format!("{t} on w{w}: {p}"),
+            );
+        }
+        let mut per_worker: BTreeMap<WorkerId, Vec<&super::launcher::LiveExec>> = BTreeMap::new();
+        for e in l.live.values() {
+            if l.dead_workers.contains(&e.worker) {
+                continue;
+            }
+            per_worker.entry(e.worker).or_default().push(e);
+        }
+        for (w, execs) in per_worker {
+            let Some(ws) = world.workers.get(&w) else { continue };
+            if execs.len() >= 2 {
+                obs.class("concurrent-executions-on-a-worker");
+            }
+            // sizes of the worker's resources by resource id
+            let mut sizes: BTreeMap<u32, u64> = BTreeMap::new();
+            for item in &ws.cfg.resources.resources {
+                if let Some(i) = snap.resource_names.iter().position(|n| *n == item.name) {
+                    sizes.insert(i as u32, item.kind.size().total_fractions());
+                }
+            }
+            let mut held: BTreeMap<(u32, u32), u64> = BTreeMap::new();
+            let mut sums: BTreeMap<u32, u64> = BTreeMap::new();
+            for e in &execs {
+                // exactness of the grant
+                if let Some(rq) = Self::rq_of(snap, e.rq_id, e.rv) {
+                    if !rq.is_multi_node() {
+                        for entry in rq.entries() {
+                            let rid = entry.resource_id.as_num();
+                            let full = sizes.get(&rid).copied().unwrap_or(0);
+                            let want = entry
+                                .request
+                                .amount_or_none_if_all()
+                                .map(|a| a.total_fractions())
+                                .unwrap_or(full);
+                            let got = e
+                                .alloc
+                                .iter()
+                                .find(|a| a.resource_id == rid)
+                                .map(|a| a.amount);
+                            if got != Some(want) {
+                                obs.alarm(
+                                    "C04",
+                                    step,
+                                    "running task does not hold exactly the amount it requested",
+                                    format!("{} on w{w}: resource {rid} requested {want} holds {got:?}", e.task),
+                                );
+                            }
+                        }
+                    }
+                }
+                for a in &e.alloc {
+                    *sums.entry(a.resource_id).or_default() += a.amount;
+                    for (i, _g, f) in &a.indices {
+                        *held.entry((a.resource_id, *i)).or_default() +=
+                            if *f == 0 { 10_000 } else { *f as u64 };
+                        if *f != 0 {
+                            obs.class("fractional-allocation-on-a-worker");
+                        }
+                    }
+                }
+            }
+            for ((rid, idx), h) in &held {
+                if *h > 10_000 {
+                    obs.alarm(
+                        "C04",
+                        step,
+                        "tasks running at the same time hold the same resource index beyond 100%",
+                        format!("w{w} resource {rid} index {idx}: {h}/10000 held by {:?}", execs.iter().map(|e| e.task).collect::<Vec<_>>()),
+                    );
+                }
+            }
+            for (rid, s) in &sums {
+                if let Some(size) = sizes.get(rid) {
+                    if s > size {
+                        obs.alarm(
+                            "C04",
+                            step,
+                            "amounts taken from a resource of a worker exceed its size",
+                            format!("w{w} resource {rid}: {s} of {size}"),
+                        );
+                    }
+                }
             }
         }
     }
